@@ -254,6 +254,9 @@ func (s *Solver) Check(asserts []*Term, wants []*Term) (res string, vals []Model
 		fmt.Fprintf(&sb, "(assert %s)\n", s.tb.Print(a))
 	}
 	for _, q := range si.sqrts {
+		if s.tb.fmode {
+			break // fp.sqrt is interpreted
+		}
 		x := s.tb.Print(q.args[0])
 		fmt.Fprintf(&sb, "(assert (>= (rsqrt %s) 0.0))\n(assert (=> (>= %s 0.0) (= (* (rsqrt %s) (rsqrt %s)) %s)))\n", x, x, x, x, x)
 	}
